@@ -377,7 +377,7 @@ func (c *DefaultCtx) Body() []byte {
 func (c *DefaultCtx) ClearCookie(key ...string) {
 	if len(key) > 0 {
 		for i := range key {
-			if containsCRLF(key[i]) {
+			if containsCTL(key[i]) {
 				continue
 			}
 			c.fasthttp.Response.Header.DelClientCookie(key[i])
@@ -414,8 +414,9 @@ func (c *DefaultCtx) SetContext(ctx context.Context) {
 
 // Cookie sets a cookie by passing a cookie struct.
 func (c *DefaultCtx) Cookie(cookie *Cookie) {
-	// A field with a line break would end the Set-Cookie header line early; such a cookie is not sent.
-	if containsCRLF(cookie.Name) || containsCRLF(cookie.Value) || containsCRLF(cookie.Path) || containsCRLF(cookie.Domain) {
+	// A field with a line break would end the Set-Cookie header line early, a name, path or domain with another
+	// control byte makes a strict client refuse the whole response; such a cookie is not sent.
+	if containsCTL(cookie.Name) || containsCRLF(cookie.Value) || containsCTL(cookie.Path) || containsCTL(cookie.Domain) {
 		return
 	}
 	fcookie := fasthttp.AcquireCookie()
